@@ -246,6 +246,8 @@ type Node struct {
 	ID      int // 1-based validator index (0: not a validator)
 	CS      *consensus.ConsensusState
 	BO      *blockchain.BlockOperations
+	BE      *cstate.BlockExecutor
+	Ops     BlockOps // what the consensus state and the block executor were given (BO behind the interposers)
 	BC      *blockchain.BlockChain
 	EvPool  *evidence.Pool
 	Store   cstate.Store
@@ -339,7 +341,7 @@ func BuildNode(w *World, id int, o Opts) (*Node, error) {
 		ccfg.CreateEmptyBlocksInterval = configs.DefaultConsensusConfig().CreateEmptyBlocksInterval
 	}
 	cs := consensus.NewConsensusState(log.New(), ccfg, st, ops, be, evp)
-	nd := &Node{ID: id, CS: cs, BO: bo, BC: bc, EvPool: evp, Store: store, DB: db, TxPool: pool}
+	nd := &Node{ID: id, CS: cs, BO: bo, BE: be, Ops: ops, BC: bc, EvPool: evp, Store: store, DB: db, TxPool: pool}
 	if id > 0 {
 		nd.Sign = &SignLog{PrivValidator: w.Privs[id-1]}
 		cs.SetPrivValidator(nd.Sign)
